@@ -80,6 +80,15 @@ CHECKS = {
              "and loop pair of the corpora) that the real backend compiles are run by TLC on all bounded inputs; at the end of every "
              "iteration of every parallel loop instance the iteration's write/reduce set must be disjoint from all other iterations' accesses.",
         note="Trusted: TLC, projection; access sets are collected in sequential order; OpenMP runtime not executed."),
+    "C06": dict(level=MC, design="6/C06",
+        technique="TLA+ CursorEdit specification (labelled trees, elementary edits, forwarding) model-checked by TLC, replayed transition-by-transition on internal_cursors, label oracle applied to real primitives",
+        text="(1) TLC proves FwdSound/FwdComplete for all labelled statement trees up to 4 (thorough 5) nodes x insert/replace/delete/"
+             "wrap/move x every node, gap and block cursor. (2) Every explored transition is replayed on real internal_cursors "
+             "objects: resulting tree and every forwarded cursor must equal the specification's. (3) Every accepted candidate of "
+             "the primitive grid on shape programs forwards all cursors with the real Procedure.forward; results are judged by the "
+             "spec's label oracle (same statement, never another one, never dangling), across chains and for implicit forwarding.",
+        note="Trusted: TLC; label extraction from unique literals; block cursors judged by the edge criterion; moves into a later "
+             "sibling subtree of an ancestor (never produced by public primitives) are replayed but excluded from FwdSound."),
 }
 
 NOT_YET = {}
